@@ -182,21 +182,21 @@ Print Assumptions C10_premises_satisfiable.
 Theorem C10_forward_directions_independent :
   forall (bu bd : list byte) (up down : list (list byte)) (sched : list nat),
   sink_up (frun false (finit bu bd up down) sched)
-    = d_snk (snd (Nat.iter (count_occ Nat.eq_dec sched 0) solo (PRead, {| d_buf := bu; d_src := up; d_snk := [] |}))) /\
+    = d_snk (snd (Nat.iter (count_occ Nat.eq_dec sched 0) solo (PRead, dinit bu up false))) /\
   sink_down (frun false (finit bu bd up down) sched)
-    = d_snk (snd (Nat.iter (count_occ Nat.eq_dec sched 1) solo (PRead, {| d_buf := bd; d_src := down; d_snk := [] |}))).
+    = d_snk (snd (Nat.iter (count_occ Nat.eq_dec sched 1) solo (PRead, dinit bd down false))).
 Proof. exact directions_independent. Qed.
 Print Assumptions C10_forward_directions_independent.
 
 Theorem C10_forward_upload_ignores_download :
-  forall bu bd bd' up down down' sched,
-  sink_up (frun false (finit bu bd up down) sched) = sink_up (frun false (finit bu bd' up down') sched).
+  forall eu ed ed' bu bd bd' up down down' sched,
+  sink_up (frun false (finit_e eu ed bu bd up down) sched) = sink_up (frun false (finit_e eu ed' bu bd' up down') sched).
 Proof. exact upload_ignores_download. Qed.
 Print Assumptions C10_forward_upload_ignores_download.
 
 Theorem C10_forward_download_ignores_upload :
-  forall bu bu' bd up up' down sched,
-  sink_down (frun false (finit bu bd up down) sched) = sink_down (frun false (finit bu' bd up' down) sched).
+  forall eu eu' ed bu bu' bd up up' down sched,
+  sink_down (frun false (finit_e eu ed bu bd up down) sched) = sink_down (frun false (finit_e eu' ed bu' bd up' down) sched).
 Proof. exact download_ignores_upload. Qed.
 Print Assumptions C10_forward_download_ignores_upload.
 
@@ -235,3 +235,67 @@ Theorem C10_forward_example :
   sink_up s = [1;2;3;4]%N /\ sink_down s = [7;8]%N /\ phase_of 0 s = PDone /\ phase_of 1 s = PDone.
 Proof. exact forward_example. Qed.
 Print Assumptions C10_forward_example.
+
+(* ------------------------------------------------------------------------------------------------------------
+   End of stream together with the last bytes, and the traffic counters.  finit_e eu ed: the upload / download source
+   returns its LAST chunk together with io.EOF (legal io.Reader behaviour) instead of a bare (0, io.EOF) afterwards.
+   sent_counter / recv_counter: what the CountingReadWriter around LocalConn has counted (n of every Read / Write). *)
+
+(* for both flag values, every chunk list and every schedule: prefixes, completeness, and the counters agree with bytes *)
+Theorem C10_forward_conserves_any_eof :
+  forall eu ed bu bd up down sched,
+  let s := frun false (finit_e eu ed bu bd up down) sched in
+  (exists rest, sink_up s ++ rest = concat up) /\ (exists rest, sink_down s ++ rest = concat down) /\
+  (phase_of 0 s = PDone -> sink_up s = concat up /\ sent_counter s = length (concat up)) /\
+  (phase_of 1 s = PDone -> sink_down s = concat down) /\
+  recv_counter s = length (sink_down s) /\ length (sink_up s) <= sent_counter s.
+Proof. exact forward_conserves_e. Qed.
+Print Assumptions C10_forward_conserves_any_eof.
+
+Theorem C10_forward_completes_any_eof :
+  forall eu ed bu bd up down sched,
+  (2 * length up + 1 <= count_occ Nat.eq_dec sched 0 ->
+     phase_of 0 (frun false (finit_e eu ed bu bd up down) sched) = PDone /\
+     sink_up (frun false (finit_e eu ed bu bd up down) sched) = concat up /\
+     sent_counter (frun false (finit_e eu ed bu bd up down) sched) = length (concat up)) /\
+  (2 * length down + 1 <= count_occ Nat.eq_dec sched 1 ->
+     phase_of 1 (frun false (finit_e eu ed bu bd up down) sched) = PDone /\
+     sink_down (frun false (finit_e eu ed bu bd up down) sched) = concat down /\
+     recv_counter (frun false (finit_e eu ed bu bd up down) sched) = length (concat down)).
+Proof. exact forward_completes_e. Qed.
+Print Assumptions C10_forward_completes_any_eof.
+
+(* the local source as a byte string behind ANY chunk oracle r of Base/Chunks.v (any cut list, carry mode, end kind), read
+   with any positive buffer size, the last chunk carrying io.EOF or not: delivered = the bytes, counted = their number *)
+Theorem C10_forward_upload_any_chunking_any_eof :
+  forall (cap : N) (r : rd) (eofl ed : bool) bu bd down sched,
+  (0 < cap)%N ->
+  2 * length (rest r) + 1 <= count_occ Nat.eq_dec sched 0 ->
+  sink_up (frun false (finit_e eofl ed bu bd (oracle_chunks (length (rest r)) cap r) down) sched) = rest r /\
+  sent_counter (frun false (finit_e eofl ed bu bd (oracle_chunks (length (rest r)) cap r) down) sched) = length (rest r).
+Proof. exact upload_delivers_any_chunking_any_eof. Qed.
+Print Assumptions C10_forward_upload_any_chunking_any_eof.
+
+(* the delivered stream is independent of the cut list and of whether the final chunk carries io.EOF *)
+Theorem C10_forward_eof_flag_irrelevant :
+  forall (cap : N) (r r' : rd) (eofl eofl' ed ed' : bool) bu bu' bd bd' down down' sched sched',
+  (0 < cap)%N -> rest r = rest r' ->
+  2 * length (rest r) + 1 <= count_occ Nat.eq_dec sched 0 -> 2 * length (rest r) + 1 <= count_occ Nat.eq_dec sched' 0 ->
+  sink_up (frun false (finit_e eofl ed bu bd (oracle_chunks (length (rest r)) cap r) down) sched) =
+  sink_up (frun false (finit_e eofl' ed' bu' bd' (oracle_chunks (length (rest r')) cap r') down') sched').
+Proof. exact eof_flag_irrelevant. Qed.
+Print Assumptions C10_forward_eof_flag_irrelevant.
+
+(* a reader wrapper that drops the bytes arriving together with io.EOF breaks exactly this (witness) *)
+Theorem C10_forward_dropping_last_chunk_refuted :
+  exists up sched, sink_up (frun false (finit_e true false [] [] (removelast up) []) sched) <> concat up /\
+                   2 * length up + 1 <= count_occ Nat.eq_dec sched 0.
+Proof. exact dropping_last_chunk_refuted. Qed.
+Print Assumptions C10_forward_dropping_last_chunk_refuted.
+
+Theorem C10_forward_eof_example :
+  let s := frun false (finit_e true true [] [] [[1;2;3]; [4]]%N [[7;8]]%N) [0; 1; 0; 0; 1; 0] in
+  sink_up s = [1;2;3;4]%N /\ sink_down s = [7;8]%N /\ phase_of 0 s = PDone /\ phase_of 1 s = PDone /\
+  sent_counter s = 4 /\ recv_counter s = 2.
+Proof. exact forward_eof_example. Qed.
+Print Assumptions C10_forward_eof_example.
